@@ -95,7 +95,7 @@ KeepSeq == {"concatenate", "stack", "hstack", "vstack"}                         
 Pred1 == {"isfinite", "isnan", "isinf", "logical_not", "signbit"}
 Index1 == {"argsort", "argmax", "argmin", "count_nonzero"}        \* positions and counts (documented: np.argmax(density); used by sortby): pure numbers
 Pred2 == {"less", "less_equal", "greater", "greater_equal", "equal", "not_equal"}
-Trans1 == {"sqrt", "square", "cbrt", "reciprocal", "power_int2", "power_nd2", "power_nd3", "power_q2", "power_a3", "power_s2"}        \* np.power with a Python int / 0-d ndarray exponent
+Trans1 == {"sqrt", "square", "cbrt", "reciprocal", "power_int2", "power_nd2", "power_nd3", "power_q2", "power_a3", "power_s2", "power_ndv"}        \* np.power with a Python int / 0-d ndarray exponent
 Trans2 == {"multiply", "divide", "true_divide"}
 NpOutcome(c) ==
   LET u == PU(c.lu)  v == IF c.rk \in {"arr", "qty"} THEN PU(c.ru) ELSE Unit0 IN
@@ -107,6 +107,10 @@ NpOutcome(c) ==
     [] c.f \in {"square", "power_int2", "power_nd2", "power_q2", "power_s2"} -> [raises |-> FALSE, unit |-> Sparse(UPow(u, 2)), bool |-> FALSE]
     [] c.f \in {"power_nd3", "power_a3"} -> [raises |-> FALSE, unit |-> Sparse(UPow(u, 3)), bool |-> FALSE]
     [] c.f = "reciprocal" -> [raises |-> FALSE, unit |-> Sparse(UInv(u)), bool |-> FALSE]
+    \* an exponent that differs from element to element (an ndarray with several values): only a pure number can be raised to it -
+    \* the VALUE of a scaled dimensionless base (50 percent = 0.5, 3 m/cm = 300), not its raw magnitude
+    [] c.f = "power_ndv" -> IF Compatible(u, Unit0) THEN [raises |-> FALSE, unit |-> Sparse(Unit0), bool |-> FALSE, scaled |-> TRUE]
+                            ELSE [raises |-> TRUE, why |-> "exponent"]
     [] c.f \in Trans2 -> [raises |-> FALSE, bool |-> FALSE, conv |-> <<>>, converted |-> FALSE,
                           unit |-> Sparse(IF c.f = "multiply" THEN UMul(u, v) ELSE UDiv(u, v))]      \* no conversion: the product of the units is exact
     [] c.f \in Keep2 \cup Pred2 \cup KeepSeq ->
